@@ -20,7 +20,7 @@ from sx.dual import replay_concrete
 PROPERTY = "C14"
 EXC = (ValueError, ZeroDivisionError, AssertionError, NotImplementedError)
 SVGNS = "http://www.w3.org/2000/svg"
-NOISE = ["comment", "pi", "title", "desc", "metadata", "foreign_element", "foreign_attribute", "anon_symbol", "wrapper_g", "whitespace", "xml_decl"]
+NOISE = ["comment", "pi", "title", "desc", "metadata", "foreign_element", "foreign_attribute", "anon_symbol", "wrapper_g", "whitespace", "xml_decl", "foreign_attribute_local_ns"]
 BASE = [
     "C05:g_opacity_two", "C05:g_g_opacity", "C05:g_fill_inherit", "C05:use_group_opacity", "C06:lin_obb_translate", "C06:href_attrs_and_stops",
     "C06:lin_shared_two_shapes", "C03:group_clip", "C03:clip_the_clip", "C04:inherited_from_group", "C02:use_in_group", "C02:nested_in_group",
@@ -66,6 +66,11 @@ def add_noise(text, kind, pos_index):
         root = etree.fromstring(txt.encode("utf-8"), parser)
         parent = element_at(root, path)
         parent.set("{http://example.org/noise}label", "x")
+        return etree.tostring(root).decode("utf-8")
+    if kind == "foreign_attribute_local_ns":
+        # the namespace is declared on the element that carries the attribute (what lxml's
+        # el.set("{ns}a", v) or an editor's per-element extension produces), not on the root
+        parent.set("{http://example.org/noise2}locked", "true")
         return etree.tostring(root).decode("utf-8")
     if kind == "wrapper_g":
         if not kids:
